@@ -13,7 +13,7 @@ The model is the skeleton of the code *with* the repairs fix-1 … fix-5.
 of any length (the read loops are unbounded before `Close` is called).
 
 Fairness: no assumption is needed after `Close` has closed `done` (`bounded_after_signal`: every
-continuation, under any scheduler, has at most `rank s ≤ 45` steps and can only stop in a state
+continuation, under any scheduler, has at most `rank s ≤ 47` steps and can only stop in a state
 that satisfies `good`); before that point the only assumption is that the caller's goroutine
 gets to run (`closer_never_blocks`: its next step is always enabled).
 -/
@@ -30,6 +30,22 @@ theorem no_race (s : St) (_ : Reach s) : race s = false := Sys.no_race s
 theorem close_returns_transport_closed (s : St) (h : Reach s) (hk : s.k = .ret) : s.closeCalls = 1 :=
   inv_ret_closed s (reach_inv s h) hk
 
+/-- what `Close` returns: the call that closed the transport returns the transport's error (if
+any), a repeated call returns nil -/
+theorem close_result (s : St) (h : Reach s) (hk : s.k = .ret) :
+    s.lastErr = (s.closeErr && !s.second) :=
+  (inv_invP s (reach_inv s h)).lastErr (.inr hk)
+
+/-- the clause "no library goroutine outlives the close" does not depend on the transport closing
+cleanly: also when `Impl.Close()` returns an error (so `Channel.Close` and `Driver.Close` take
+their `return err` path), an execution can only stop with the NETCONF read loop terminated, and
+the channel read loop terminated unless the transport's read stays blocked -/
+theorem close_error_still_terminates (s : St) (h : Reach s) (_ : s.closeErr = true)
+    (ht : next s = []) : (s.n = .absent ∨ s.n = .dead) ∧ (s.mode = .stay ∨ s.r = .dead) ∧ s.k = .ret := by
+  have g := inv_terminal_good s (reach_inv s h) ht
+  simp only [good, Bool.and_eq_true, Bool.or_eq_true, decide_eq_true_eq] at g
+  exact ⟨g.1.2, g.2, g.1.1.1.1.1.1.2⟩
+
 /-- until it has closed `done`, the closer's next step is always enabled: `Close` cannot block
 before it has signalled the read loop -/
 theorem closer_never_blocks (s : St) (h : Reach s) (hd : s.doneClosed = false) : stepK s ≠ [] :=
@@ -43,9 +59,9 @@ theorem bounded_after_signal (s s' : St) (l : List St) (h : Reach s) (hd : s.don
   omega
 
 /-- `rank` is uniformly small -/
-theorem rank_le (s : St) : rank s ≤ 45 := by
+theorem rank_le (s : St) : rank s ≤ 47 := by
   have h1 : s.r.rank ≤ 8 := by cases s.r <;> decide
-  have h2 : s.k.rank ≤ 8 := by cases s.k <;> decide
+  have h2 : s.k.rank ≤ 9 := by cases s.k <;> decide
   have h3 : s.o.rank s.oSecond ≤ 7 := by cases s.o <;> cases s.oSecond <;> decide
   have h4 : s.n.rank ≤ 7 := by cases s.n <;> decide
   have h5 : s.w.rank ≤ 4 := by cases s.w <;> decide
@@ -61,14 +77,14 @@ theorem terminal_good (s : St) (h : Reach s) (ht : next s = []) : good s = true 
   inv_terminal_good s (reach_inv s h) ht
 
 /-- The property at full strength, for every start state after a successful open (generic or
-NETCONF driver, every transport close behaviour, `Close` called once or twice, with or without an
-operation / RPC in flight), every schedule `l` of any length and every state `s` it reaches. -/
+NETCONF driver, every transport close behaviour incl. a `Close()` that returns an error, `Close`
+called once or twice, with or without an operation / RPC in flight), every schedule `l` of any length and every state `s` it reaches. -/
 def Full : Prop :=
   ∀ s₀ : St, isInit s₀ = true → ∀ (l : List St) (s : St), Exec s₀ l s →
     s.panic = .none ∧ race s = false
     ∧ (s.k = .ret → s.closeCalls = 1)
     ∧ (s.doneClosed = false → stepK s ≠ [])
-    ∧ (s.doneClosed = true → ∀ (l' : List St) (s' : St), Exec s l' s' → l'.length ≤ rank s ∧ rank s ≤ 45)
+    ∧ (s.doneClosed = true → ∀ (l' : List St) (s' : St), Exec s l' s' → l'.length ≤ rank s ∧ rank s ≤ 47)
     ∧ (next s = [] → good s = true)
 
 theorem C07_full : Full := by
@@ -81,6 +97,7 @@ theorem C07_full : Full := by
 interesting ones -/
 
 example : isInit (mkInit true .errOnClose true true) = true := by decide
+example : isInit (mkInit true .eofOnClose true true true) = true ∧ (mkInit true .eofOnClose true true true).closeErr = true := by decide
 example : ∀ s ∈ inits, isInit s = true := by decide
 
 /-- from every start state the canonical execution (always take the first enabled step) stops
